@@ -196,7 +196,7 @@ func VerifC20_C_deps_rdeps() {
 // owners f: exactly the targets whose resolved inputs contain f, for every spelling of the input
 func VerifC20_C_owners() {
 	setup()
-	spellings := []string{"a.txt", "./a.txt", "sub/../a.txt", "sub/a.txt", "../p/a.txt", "b.txt"}
+	spellings := []string{"a.txt", "./a.txt", "sub/../a.txt", "sub/a.txt", "../p/a.txt", "b.txt", "a.txt.tmpl"}
 	files := []string{"p/a.txt", "p/sub/a.txt", "q/a.txt", "p/b.txt"}
 	k := 2
 	q := &qgraph{}
